@@ -225,22 +225,22 @@ EXTRA = {
  "C03": " The single characters the splitter tests (besides its punctuation set) contain no letter, digit or Bengali sign. In the list builder the wrapping parts are the phonetic parser's conversion of the split's own parts on every path of the mapping closure.",
  "C04": " With every composition helper off, every path of the key-value processor appends the whole value; the number-pad option is a plain stored value "
         "(getter = field, one pass-through setter, C setter passes the value); the key map stored in the layout object is the deserialised file, never mutably borrowed "
-        "between load and store; the layout look-up is on every path of the key event (or skipped only by a key-code predicate that holds for every mapped key) and every value it yields is handed to the key-value processor (post-dominance).",
+        "between load and store; the layout look-up is on every path of the key event (or skipped only by a key-code predicate that holds for every mapped key) and every value it yields is handed to the key-value processor (post-dominance). A keypad look-up that takes no switch is accepted when the table function itself reaches it only with the keypad option on and answers nothing with it off, for every keypad key.",
  "C06": " Every context entry point performs exactly one virtual call of its trait method on every path, passes its parameters through and returns the call's own result.",
- "C07": " The auto-correct, dictionary and suffix tables stored by Data's constructor are the deserialised bundled files, unmodified, and every Data accessor that reads a table is a pure look-up of its own argument; where the user's entry is absent or rejected the bundled table is consulted; the raw English candidate is pushed unchecked (recorded known finding). The auto-correct candidate is the parser's conversion of the table's entry on every path, and the user table and the bundled table are each asked once for the typed word itself; the emoticon's literal text, like the English candidate, is pushed unchecked (known findings).",
+ "C07": " The auto-correct, dictionary and suffix tables stored by Data's constructor are the deserialised bundled files, unmodified, and every Data accessor that reads a table is a pure look-up of its own argument; where the user's entry is absent or rejected the bundled table is consulted; the raw English candidate is pushed unchecked (recorded known finding). The auto-correct candidate is the parser's conversion of the table's entry on every path, and the user table and the bundled table are each asked once for the typed word itself; the emoticon's literal text, like the English candidate, is pushed unchecked (known findings). A comparator written over key functions combined with then_with is read with those spliced in and then_with written out.",
  "C09": " Only commit writes the learned map on the event path; the candidate compared by the look-up is built from the parts the commit will see. The save stands under the same two conditions as the insert and nothing else.",
  "C10": " After the in-memory insert the save is attempted under no condition other than the serialisation's outcome, and the write's outcome is not kept in the method's state; "
         "a user auto-correct value reaches the parser only if ASCII and NUL-free.",
  "C11": " The reload gate compares the stored modification time for inequality and a removed file empties the user map. When the file cannot be opened the map is kept only on paths that tested the remembered state's own discriminant with the outcome 'nothing loaded' (no sentinel time value). A changed file (it opens, its time differs) replaces the map on every path, also when it does not parse; the remembered file state may be a private enum whose field-less variants mean 'nothing loaded'.",
  "C12": " Vowel signs are a subset of vowels (class rule); a sign→vowel table written as a function (constant array searched, match returning Some) is read as a finite map; "
-        "every option the processor consults is a plain stored value. Class oracles are the complete Unicode sets (Sanskrit vowels and signs included); a row of the sign→vowel tables is demanded for every sign the vowel-sign predicate accepts; the punctuation set contains the apostrophe and the Dari marks and only punctuation.",
- "C13": " Frame rule: nothing else writes the text in the reph routine except a character popped and pushed back under the same condition on every path; the `split_off` form of taking the tail is recognised. The mobility test's classes cover every consonant, independent vowel and vowel sign; the old-reph option is a plain stored value.",
+        "every option the processor consults is a plain stored value. Class oracles are the complete Unicode sets (Sanskrit vowels and signs included); a row of the sign→vowel tables is demanded for every sign the vowel-sign predicate accepts; the punctuation set contains the apostrophe and the Dari marks and only punctuation. The punctuation set holds every ASCII punctuation character and the two Dari marks.",
+ "C13": " Frame rule: nothing else writes the text in the reph routine except a character popped and pushed back under the same condition on every path; the `split_off` form of taking the tail is recognised. The mobility test's classes cover every consonant, independent vowel and vowel sign; the old-reph option is a plain stored value. The mobility test is read as a decision table over the classes of the last three characters (consonant, independent vowel, vowel sign, chandrabindu, other, none) and agrees with the statement on every well-formed ending.",
  "C14": " The option itself (and every option consulted with it on) is a plain stored value; the context's session query, key and back-space entry points (and the exported "
         "session query) delegate to the method object and return its answer; every value the layout look-up yields reaches the key-value processor; a zo-fola under a left-standing sign tests the consonant under the sign for the joiner.",
  "C15": " Nothing of the Bengali block is in the splitter's special characters (the searched word is the typed word minus punctuation); the search never takes a mutable "
         "reference to a ranked candidate (what is shown is what was measured); the same cleaning written as a filter loop is recognised and evaluated as a set. The cleaning filter removes punctuation and the non-joiner only (letters, signs, digits and U+200D stay).",
- "C17": " One split value per builder: no stage of a list builder builds candidates from a second split of the text (counted per call, so independent of how the builder is cut into functions). Raw typed-text candidates are added by a plain push, never through the duplicate-dropping helper; the smart-quote option is a plain stored value. No string-level edit (replace / trim / case / insert / remove) besides the two per-character maps; characters the quoter adds through string-level calls count as its outputs.",
- "C18": " The joiners of traditional joining are stripped from the name handed to the emoji look-up; one split value per builder (emoji are wrapped with the parts of the converted / curled split value). The split value whose parts wrap the emoji is the one handed to the stage that builds the word candidates; every emoji name of the bundled tables is its own word part under the splitter's punctuation set (five names are not: known findings).",
+ "C17": " One split value per builder: no stage of a list builder builds candidates from a second split of the text (counted per call, so independent of how the builder is cut into functions). Raw typed-text candidates are added by a plain push, never through the duplicate-dropping helper; the smart-quote option is a plain stored value. No string-level edit (replace / trim / case / insert / remove) besides the two per-character maps; characters the quoter adds through string-level calls count as its outputs. The two character maps may be made by one private helper called once per part (a loop of pushes or chars().map().collect(), no iterator adaptor in between), handed over directly or through the split value's rebuilding method, whose own body is checked to store the callback's pair as the two wrapping parts and nothing else.",
+ "C18": " The joiners of traditional joining are stripped from the name handed to the emoji look-up; one split value per builder (emoji are wrapped with the parts of the converted / curled split value). The split value whose parts wrap the emoji is the one handed to the stage that builds the word candidates; every emoji name of the bundled tables is its own word part under the splitter's punctuation set (five names are not: known findings). Nothing but the ANSI guard and the failed emoticon look-up decides whether a word is looked up as an emoji name.",
  "C19": " User auto-correct values containing NUL never reach a candidate (no interior NUL in returned C strings).",
 }
 
